@@ -56,6 +56,16 @@ func spell(r *rand.Rand, a common.Address) string {
 	return spellForm(a, r.Intn(nSpellings))
 }
 
+// violationBudget: the first three histories that violate a given oracle clause are reported with their replay, the
+// others only counted (every history of a run can hit the same defect).
+var violationsSeen = map[string]int{}
+
+func violationBudget(run *emit.Run, id string) bool {
+	violationsSeen[id]++
+	run.Count("oracle-violations", id)
+	return violationsSeen[id] <= 3
+}
+
 func lowerOf(s string) string { return strings.ToLower(common.HexToAddress(s).Hex()) }
 
 // liveReassignCallers: production call sites of the signature-keeping reassignment (same query as the
@@ -149,7 +159,9 @@ func TestCorr(t *testing.T) {
 		"bytes / over an earlier version / over another message; another key; unregistered address; junk; missing message; wrong queue), gas estimates, " +
 		"CheckAndProcessEstimatedMessages (election + fee attachment), DeleteJob; one history in eight also uses the latent ReassignValidator. " +
 		"Part B: histories on keeper.SetupFiveValChain through the real skyway msg server: build, ConfirmBatch (same variants), UpdateBatchGasEstimate, " +
-		"EstimateBatchGas + EndBlocker, cancel / executed / timeout, re-registration and key hand-over between validators. After every step the stored " +
+		"EstimateBatchGas + EndBlocker, cancel / executed / timeout, re-registration and key hand-over between validators, staking status changes " +
+		"(bonded / unbonding / unbonded) and confirmations by an account that is no validator; one history in 96 (and a scripted one first) has a " +
+		"validator set of 102..109 whose members all confirm a batch before its estimate is elected / it is cancelled. After every step the stored " +
 		"signatures are re-verified with go-ethereum against the CURRENT bytes (oracle) and the projected state is compared with the Coq model. " +
 		"Non-trivial = at least one accepted and one rejected operation.")
 	repo := os.Getenv("VERIF_REPO")
@@ -167,6 +179,10 @@ func TestCorr(t *testing.T) {
 		runQueueHistory(t, run, i%8 == 7)
 	}
 	for i := nq; i < run.N; i++ {
+		if (i-nq)%96 == 5 {
+			runBigSetHistory(t, run, false)
+			continue
+		}
 		runBatchHistory(t, run)
 	}
 	if err := run.Finish("Cons.Queue Skyway.Confirms Corr.C06", "C06.case", "C06.check"); err != nil {
